@@ -305,7 +305,8 @@ class FuncScope(Scope, Location, Resolvable):
             self.location = get_first_body_node_loc(fnode.body) or (np(fnode.body[0])[0], np(fnode)[1] + 4)
             self.decorator_list = fnode.decorator_list
 
-        for ni, n in enumerate(node.args.args):
+        posonly = getattr(node.args, 'posonlyargs', [])
+        for ni, n in enumerate(posonly + node.args.args):
             if PY2:
                 for nn, idx in get_indexes_for_target(n, [], []):
                     self.args.append(ArgumentName([ni] + idx, nn.id, self.location, np(nn), self))
